@@ -103,9 +103,8 @@ class Env:
         self.tick_missing = None
         pk = dict(cfg.get('pool', {}))
         self.nprocs = cfg.get('procs', 2)
-        if pk.get('putlocks'):
-            pk['semaphore'] = vproc.use_scheduler_aware_putlock(
-                bp.LaxBoundedSemaphore(self.nprocs))
+        pk['semaphore'] = vproc.use_scheduler_aware_putlock(
+            bp.LaxBoundedSemaphore(self.nprocs))
         self.pool = bp.Pool(self.nprocs, threads=False,
                             context=vproc.VPoolContext(), **pk)
         rs = self.pool.restart_state
@@ -281,11 +280,18 @@ class Env:
             if A.get('next') and rec['kind'] in ('imap', 'imap_unordered') \
                     and not rec.get('exhausted'):
                 evs.append(('next', j))
-        if A.get('close') and not self.closed:
+        if A.get('close') and not self.closed and any(
+                w.alive and not w.term and
+                not getattr(p, '_controlled_termination', False)
+                for p in pool._pool for w in [self.workers[p.pid]]):
+            # (closing a pool whose every worker the user has just told to
+            # exit leaves nobody to drain it: not a scenario the properties
+            # speak about)
             evs.append(('close',))
         if A.get('grow') and self.grown < A['grow'] and pool._state == bp.RUN:
             evs.append(('grow',))
-        if A.get('shrink') and not self.closed and pool._processes > 1:
+        if A.get('shrink') and not self.closed and pool._processes > 1 \
+                and pool._putlock._value > 0:      # else shrink() blocks
             evs.append(('shrink',))
         return evs
 
